@@ -58,8 +58,8 @@ var allowed = map[string]map[string]bool{
 	"crypto/rand": set("Read", "Reader"),
 }
 
-var timeRewrite = set("Now", "Since", "Until", "Sleep", "AfterFunc")
-var timeReject = set("After", "NewTimer", "NewTicker", "Tick")
+var timeRewrite = set("Now", "Since", "Until", "Sleep", "AfterFunc", "After", "NewTimer", "NewTicker", "Tick", "Timer", "Ticker")
+var ctxRewrite = set("WithTimeout", "WithDeadline")
 
 func set(xs ...string) map[string]bool {
 	m := map[string]bool{}
@@ -277,12 +277,13 @@ func stripDocs(f *ast.File) {
 }
 
 type rewriter struct {
-	fset *token.FileSet
-	info *types.Info
-	file *ast.File
-	st   map[string]int
-	need map[string]string // import path -> name
-	tmp  int
+	ctxRewritten, usesCtx bool
+	fset                  *token.FileSet
+	info                  *types.Info
+	file                  *ast.File
+	st                    map[string]int
+	need                  map[string]string // import path -> name
+	tmp                   int
 }
 
 func (r *rewriter) pkgOf(e ast.Expr) string {
@@ -331,8 +332,10 @@ func (r *rewriter) run() {
 	// 1. validate and rewrite selector uses
 	astutil.Apply(f, func(c *astutil.Cursor) bool {
 		switch n := c.Node().(type) {
-		case *ast.SelectStmt:
-			fail(r.fset, n.Pos(), "select statement")
+		case *ast.LabeledStmt:
+			if _, ok := n.Stmt.(*ast.SelectStmt); ok {
+				fail(r.fset, n.Pos(), "labeled select statement")
+			}
 		case *ast.SelectorExpr:
 			switch p := r.pkgOf(n.X); p {
 			case "sync", "sync/atomic", "crypto/rand":
@@ -340,17 +343,17 @@ func (r *rewriter) run() {
 					fail(r.fset, n.Pos(), "%s.%s has no simulated counterpart", p, n.Sel.Name)
 				}
 				r.st[p]++
-			case "time":
-				if timeReject[n.Sel.Name] {
-					fail(r.fset, n.Pos(), "time.%s has no simulated counterpart", n.Sel.Name)
+			case "context":
+				if ctxRewrite[n.Sel.Name] {
+					n.X = ast.NewIdent("stime")
+					r.need[pTime] = "stime"
+					r.st["context."+n.Sel.Name]++
+					r.ctxRewritten = true
+				} else {
+					r.usesCtx = true
 				}
+			case "time":
 				if timeRewrite[n.Sel.Name] {
-					if n.Sel.Name == "AfterFunc" {
-						if call, ok := c.Parent().(*ast.CallExpr); ok && call.Fun == n {
-							// result must be unused
-							r.st["time.AfterFunc"]++
-						}
-					}
 					n.X = ast.NewIdent("stime")
 					r.need[pTime] = "stime"
 					r.st["time."+n.Sel.Name]++
@@ -376,6 +379,9 @@ func (r *rewriter) run() {
 		case *ast.GoStmt:
 			c.Replace(r.rewriteGo(n))
 			r.st["go"]++
+		case *ast.SelectStmt:
+			c.Replace(r.rewriteSelect(n))
+			r.st["select"]++
 		case *ast.SendStmt:
 			c.Replace(&ast.ExprStmt{X: r.simrtCall("ChanSend", n.Chan, n.Value)})
 			r.st["chan.send"]++
@@ -404,7 +410,8 @@ func (r *rewriter) run() {
 						r.st["chan.close"]++
 					case "len":
 						if len(n.Args) == 1 && r.isChan(n.Args[0]) {
-							fail(r.fset, n.Pos(), "len of a channel")
+							c.Replace(r.simrtCall("ChanLen", n.Args[0]))
+							r.st["chan.len"]++
 						}
 					}
 				}
@@ -466,6 +473,12 @@ func (r *rewriter) run() {
 			}}})
 		}
 	}
+	if r.ctxRewritten && !r.usesCtx {
+		f.Decls = append(f.Decls, &ast.GenDecl{Tok: token.VAR, Specs: []ast.Spec{&ast.ValueSpec{
+			Names: []*ast.Ident{ast.NewIdent("_")},
+			Type:  &ast.SelectorExpr{X: ast.NewIdent("context"), Sel: ast.NewIdent("Context")},
+		}}})
+	}
 	if importsTime && !usesTime {
 		f.Decls = append(f.Decls, &ast.GenDecl{Tok: token.VAR, Specs: []ast.Spec{&ast.ValueSpec{
 			Names: []*ast.Ident{ast.NewIdent("_")},
@@ -501,6 +514,108 @@ func (r *rewriter) rewriteGo(g *ast.GoStmt) ast.Stmt {
 	}
 	lit := &ast.FuncLit{Type: &ast.FuncType{Params: &ast.FieldList{}}, Body: &ast.BlockStmt{List: []ast.Stmt{&ast.ExprStmt{X: inner}}}}
 	stmts = append(stmts, &ast.ExprStmt{X: r.simrtCall("GoFunc", lit)})
+	return &ast.BlockStmt{List: stmts}
+}
+
+// select { case v := <-a: A; case b <- x: B; default: D } =>
+//
+//	{ c1 := a; c2 := b; v2 := x
+//	  sel := simrt.Select(true, simrt.SelRecv(c1), simrt.SelSend(c2, v2))
+//	  switch sel.I { case 0: v := simrt.SelGot(c1, sel); A; case 1: B; default: D } }
+//
+// The communication clauses arrive here already rewritten (post-order), i.e. as calls of
+// simrt.ChanSend / ChanRecv / ChanRecv2, from which channel and value expressions are taken back.
+func (r *rewriter) rewriteSelect(n *ast.SelectStmt) ast.Stmt {
+	var pre []ast.Stmt
+	var cases []ast.Expr
+	var clauses []ast.Stmt
+	sel := r.name("sel")
+	hasDefault := false
+	simCall := func(e ast.Expr) (string, []ast.Expr) {
+		for {
+			p, ok := e.(*ast.ParenExpr)
+			if !ok {
+				break
+			}
+			e = p.X
+		}
+		call, ok := e.(*ast.CallExpr)
+		if !ok {
+			return "", nil
+		}
+		se, ok := call.Fun.(*ast.SelectorExpr)
+		if !ok {
+			return "", nil
+		}
+		if id, ok := se.X.(*ast.Ident); !ok || id.Name != "simrt" {
+			return "", nil
+		}
+		return se.Sel.Name, call.Args
+	}
+	idx := 0
+	for _, st := range n.Body.List {
+		cc := st.(*ast.CommClause)
+		if cc.Comm == nil {
+			hasDefault = true
+			clauses = append(clauses, &ast.CaseClause{Body: cc.Body})
+			continue
+		}
+		var head []ast.Stmt
+		switch comm := cc.Comm.(type) {
+		case *ast.ExprStmt:
+			fn, args := simCall(comm.X)
+			cn := r.name("c")
+			switch fn {
+			case "ChanSend":
+				// channel and value are evaluated on entry, in clause order, as call arguments
+				cases = append(cases, r.simrtCall("SelSend", args[0], args[1]))
+			case "ChanRecv":
+				pre = append(pre, &ast.AssignStmt{Lhs: []ast.Expr{ast.NewIdent(cn)}, Tok: token.DEFINE, Rhs: []ast.Expr{args[0]}})
+				cases = append(cases, r.simrtCall("SelRecv", ast.NewIdent(cn)))
+			default:
+				fail(r.fset, cc.Pos(), "select clause of an unexpected shape")
+			}
+		case *ast.AssignStmt:
+			if len(comm.Rhs) != 1 {
+				fail(r.fset, cc.Pos(), "select clause of an unexpected shape")
+			}
+			fn, args := simCall(comm.Rhs[0])
+			if fn != "ChanRecv" && fn != "ChanRecv2" {
+				fail(r.fset, cc.Pos(), "select clause of an unexpected shape")
+			}
+			cn := r.name("c")
+			pre = append(pre, &ast.AssignStmt{Lhs: []ast.Expr{ast.NewIdent(cn)}, Tok: token.DEFINE, Rhs: []ast.Expr{args[0]}})
+			cases = append(cases, r.simrtCall("SelRecv", ast.NewIdent(cn)))
+			got := "SelGot"
+			if len(comm.Lhs) == 2 {
+				got = "SelGot2"
+			}
+			head = append(head, &ast.AssignStmt{Lhs: comm.Lhs, Tok: comm.Tok, Rhs: []ast.Expr{r.simrtCall(got, ast.NewIdent(cn), ast.NewIdent(sel))}})
+			if comm.Tok == token.DEFINE {
+				// a variable declared by the clause may be unused in its body
+				for _, l := range comm.Lhs {
+					if id, ok := l.(*ast.Ident); ok && id.Name != "_" {
+						head = append(head, &ast.AssignStmt{Lhs: []ast.Expr{ast.NewIdent("_")}, Tok: token.ASSIGN, Rhs: []ast.Expr{ast.NewIdent(id.Name)}})
+					}
+				}
+			}
+		default:
+			fail(r.fset, cc.Pos(), "select clause of an unexpected shape")
+		}
+		clauses = append(clauses, &ast.CaseClause{List: []ast.Expr{&ast.BasicLit{Kind: token.INT, Value: strconv.Itoa(idx)}}, Body: append(head, cc.Body...)})
+		idx++
+	}
+	def := "false"
+	if hasDefault {
+		def = "true"
+	} else {
+		// keeps the statement terminating when every clause is (a select without default always
+		// proceeds with one of its clauses)
+		clauses = append(clauses, &ast.CaseClause{Body: []ast.Stmt{&ast.ExprStmt{X: &ast.CallExpr{Fun: ast.NewIdent("panic"), Args: []ast.Expr{&ast.BasicLit{Kind: token.STRING, Value: `"simrt: select proceeded with no clause"`}}}}}})
+	}
+	args := append([]ast.Expr{ast.NewIdent(def)}, cases...)
+	stmts := append(pre, &ast.AssignStmt{Lhs: []ast.Expr{ast.NewIdent(sel)}, Tok: token.DEFINE, Rhs: []ast.Expr{r.simrtCall("Select", args...)}})
+	stmts = append(stmts, &ast.SwitchStmt{Tag: &ast.SelectorExpr{X: ast.NewIdent(sel), Sel: ast.NewIdent("I")}, Body: &ast.BlockStmt{List: clauses}})
 	return &ast.BlockStmt{List: stmts}
 }
 
